@@ -13,7 +13,7 @@
 //verif:obligation C10.b persistence: every Block*/Unblock* call writes to the datastore before touching memory; if the datastore fails the error is returned and memory is unchanged; after every acknowledged call of every history of 3 calls over peers, addresses and subnets (including two subnets with the same network address and different prefix lengths) the persisted rule set decodes to exactly the in-memory rule set, so a restart at any point enforces every acknowledged block and no acknowledged unblock; after the history a fresh gater loads the rules through the REAL loadRules from the same datastore: exactly the same rules are in force under the same names, and every subnet rule (also one given with host bits set, e.g. 10.1.2.3/16) can then be lifted: it is no longer in force, listed or persisted
 //verif:bound one blocked address + one blocked subnet per decision; histories of 3 Block/Unblock calls over 2 peers, 2 addresses, 4 subnets, then one restart; datastore failures symbolic per call
 //verif:stub manet.ToIP substituted at its call sites by a harness function returning the symbolic IP; net.IP.String / net.IPNet.String / peer.ID.String / datastore.NewKey replaced in the symbolic run by injective functions (and net.ParseCIDR by the inverse of that IPNet text form, host bits cleared as the real one does) of the (To4-normalised) bytes - their stdlib / library contract; datastore = harness map with symbolic failures
-//verif:outside the gating call sites of each transport (accept / upgrade / dial paths are covered under C04.a/b), QUIC/WebTransport/WebRTC listeners, a real datastore's crash semantics, a real datastore's query engine (the stub filters by prefix and returns go-datastore's ResultsWithEntries)
+//verif:outside the inbound gating call sites of each transport (the upgrader and the gated listener are covered under C04.a/b, the swarm's outbound sites under C10.c), QUIC/WebTransport/WebRTC listeners, a real datastore's crash semantics, a real datastore's query engine (the stub filters by prefix and returns go-datastore's ResultsWithEntries)
 package conngater
 
 import (
